@@ -171,22 +171,45 @@ def pure_helper_resolver(pkg, cls):
         if name not in folded:
             folded[name] = inline_constants(_copy.deepcopy(f), _pkg, cls)
         f = folded[name]
-        ps = {a.arg for a in f.args.args + f.args.kwonlyargs}
-        for n in ast.walk(f):
-            if isinstance(n, ast.Call) and isinstance(n.func, ast.Attribute) and n.func.attr in _MUTATORS:
-                b = n.func.value
+        return f if _leaves_arguments_alone(f) else None
+    return resolver
+
+
+def _leaves_arguments_alone(f) -> bool:
+    """no in-place edit (mutator call, item / attribute store, del) of anything reached through a parameter of `f`"""
+    ps = {a.arg for a in f.args.args + f.args.kwonlyargs}
+    for n in ast.walk(f):
+        if isinstance(n, ast.Call) and isinstance(n.func, ast.Attribute) and n.func.attr in _MUTATORS:
+            b = n.func.value
+            while isinstance(b, (ast.Attribute, ast.Subscript)):
+                b = b.value
+            if isinstance(b, ast.Name) and b.id in ps:
+                return False
+        if isinstance(n, (ast.Assign, ast.AugAssign, ast.AnnAssign, ast.Delete)):
+            for t in (n.targets if isinstance(n, (ast.Assign, ast.Delete)) else [n.target]):
+                b = t
                 while isinstance(b, (ast.Attribute, ast.Subscript)):
                     b = b.value
-                if isinstance(b, ast.Name) and b.id in ps:
-                    return None
-            if isinstance(n, (ast.Assign, ast.AugAssign, ast.AnnAssign, ast.Delete)):
-                for t in (n.targets if isinstance(n, (ast.Assign, ast.Delete)) else [n.target]):
-                    b = t
-                    while isinstance(b, (ast.Attribute, ast.Subscript)):
-                        b = b.value
-                    if b is not t and isinstance(b, ast.Name) and b.id in ps:
-                        return None
-        return f
+                if b is not t and isinstance(b, ast.Name) and b.id in ps:
+                    return False
+    return True
+
+
+def pure_function_resolver(pkg, file, cls):
+    """name -> FunctionDef of a MODULE-LEVEL helper function of `file` called by its bare name that may be read as the value it
+    returns (valueflow `func_resolver`): `def _wrap(expr): return f"(..) * ( {expr} ) / .."` is the f-string it returns.  Same
+    proviso as for helper methods: it leaves its arguments alone."""
+    import copy as _copy
+    folded = {}
+
+    def resolver(name, _pkg=pkg):
+        f = _pkg.functions.get((file, name))
+        if f is None:
+            return None
+        if name not in folded:
+            folded[name] = inline_constants(_copy.deepcopy(f), _pkg, cls)
+        f = folded[name]
+        return f if _leaves_arguments_alone(f) else None
     return resolver
 
 
@@ -239,7 +262,9 @@ class OdeModel:
         # one loop over a concatenation (`for sign, i in chain(zip(repeat(" - "), R), zip(repeat(" + "), P))`) is the loops it abbreviates
         from .normalize import split_concat_loops
         func = split_concat_loops(func)
-        self.flow = Flow(func, FILE, proc_resolver=_resolver, resolver=_pure_resolver, records=pkg.records())
+        # ... and so are small module-level helper FUNCTIONS of this file called by their bare name
+        self.flow = Flow(func, FILE, proc_resolver=_resolver, resolver=_pure_resolver, records=pkg.records(),
+                         func_resolver=pure_function_resolver(pkg, FILE, "TemplateLoader"))
         fl = self.flow
         self._expand_built_lists(fl)
         self._index_slice_loops(fl)
